@@ -500,7 +500,7 @@ fn c17_expand_2() {
     c17_body::<2>();
 }
 
-// @verif props=C17 tier=quick timeout=3000 unwind=12 bound="templates of 3 symbols over {$,0,1,2,9,{,},a,e-acute}; 2 groups" funcs="Regex::expand_replacement,Match::group,Match::named_group"
+// @verif props=C17 tier=thorough timeout=5400 mem=20 unwind=12 bound="templates of 3 symbols over {$,0,1,2,9,{,},a,e-acute}; 2 groups" funcs="Regex::expand_replacement,Match::group,Match::named_group"
 #[kani::proof]
 #[kani::unwind(12)]
 fn c17_expand_3() {
@@ -527,8 +527,8 @@ mod eng {
     #[cfg(feature = "pattern")]
     use core::str::pattern::{Pattern, ReverseSearcher, SearchStep, Searcher};
 
-    const NMAX: usize = 3;
-    const BYTES: usize = 12;
+    const NMAX: usize = 2;
+    const BYTES: usize = 8;
 
     pub struct Hay {
         pub n: usize,
@@ -647,10 +647,10 @@ mod eng {
         }
     }
 
-    // @verif props=C20 tier=quick builds=pattern sub=eng timeout=3000 unwind=15 bound="haystack <= 3 symbolic scalars, arbitrary engine table, next() until Done (<= 2*chars+4 steps)" funcs="RegexSearcher::next,Regex::find_from,<&Regex as Pattern>::into_searcher,exec::Matches::next,BacktrackExecutor::next_match"
+    // @verif props=C20 tier=quick builds=pattern sub=eng timeout=3000 unwind=11 bound="haystack <= 2 symbolic scalars, arbitrary engine table, next() until Done (<= 2*chars+4 steps)" funcs="RegexSearcher::next,Regex::find_from,<&Regex as Pattern>::into_searcher,exec::Matches::next,BacktrackExecutor::next_match"
     // @verif stubs="MatchAttempter::try_at_pos -> arbitrary deterministic table END[offset]"
     #[kani::proof]
-    #[kani::unwind(15)]
+    #[kani::unwind(11)]
     #[kani::stub(crate::classicalbacktrack::MatchAttempter::try_at_pos, stub_try_at_pos)]
     #[cfg(feature = "pattern")]
     fn c20_searcher_forward() {
@@ -706,10 +706,10 @@ mod eng {
         core::mem::forget(re);
     }
 
-    // @verif props=C20 tier=quick builds=pattern sub=eng timeout=3000 unwind=15 bound="haystack <= 3 symbolic scalars, arbitrary engine table, next_back() until Done" funcs="RegexSearcher::next_back,find_last_match_before,Regex::find_from"
+    // @verif props=C20 tier=quick builds=pattern sub=eng timeout=3000 unwind=11 bound="haystack <= 2 symbolic scalars, arbitrary engine table, next_back() until Done" funcs="RegexSearcher::next_back,find_last_match_before,Regex::find_from"
     // @verif stubs="MatchAttempter::try_at_pos -> arbitrary deterministic table END[offset]"
     #[kani::proof]
-    #[kani::unwind(15)]
+    #[kani::unwind(11)]
     #[kani::stub(crate::classicalbacktrack::MatchAttempter::try_at_pos, stub_try_at_pos)]
     #[cfg(feature = "pattern")]
     fn c20_searcher_backward() {
@@ -767,7 +767,7 @@ mod eng {
             (false, false) => re.replace_with(text, |_m| String::from("#")),
         };
         // model: copy unmatched bytes, '#' per match, over the lastIndex sequence
-        let mut want = [0u8; 20];
+        let mut want = [0u8; 16];
         let mut wl = 0usize;
         let mut copied = 0usize; // haystack bytes consumed so far
         let mut cursor: Option<usize> = Some(0);
@@ -806,7 +806,7 @@ mod eng {
         let gb = got.as_bytes();
         assert!(gb.len() == wl, "spliced result has the wrong length");
         let mut i = 0;
-        while i < 20 {
+        while i < 16 {
             if i < wl {
                 assert!(gb[i] == want[i], "spliced result differs from the model");
             }
@@ -819,37 +819,37 @@ mod eng {
         core::mem::forget(re);
     }
 
-    // @verif props=C17 tier=quick sub=eng timeout=3000 unwind=15 bound="replace_all with a constant template over a haystack of <= 3 symbolic scalars and an arbitrary engine table" funcs="Regex::replace_all,find_iter,exec::Matches::next,expand_replacement"
+    // @verif props=C17 tier=quick sub=eng timeout=3000 unwind=11 bound="replace_all with a constant template over a haystack of <= 3 symbolic scalars and an arbitrary engine table" funcs="Regex::replace_all,find_iter,exec::Matches::next,expand_replacement"
     // @verif stubs="MatchAttempter::try_at_pos -> arbitrary deterministic table END[offset]"
     #[kani::proof]
-    #[kani::unwind(15)]
+    #[kani::unwind(11)]
     #[kani::stub(crate::classicalbacktrack::MatchAttempter::try_at_pos, stub_try_at_pos)]
     fn c17_splice_replace_all() {
         c17_splice_body(true, true);
     }
 
-    // @verif props=C17 tier=quick sub=eng timeout=3000 unwind=15 bound="replace_all_with (constant closure), haystack <= 3 symbolic scalars, arbitrary engine table" funcs="Regex::replace_all_with,find_iter"
+    // @verif props=C17 tier=quick sub=eng timeout=3000 unwind=11 bound="replace_all_with (constant closure), haystack <= 2 symbolic scalars, arbitrary engine table" funcs="Regex::replace_all_with,find_iter"
     // @verif stubs="MatchAttempter::try_at_pos -> arbitrary deterministic table END[offset]"
     #[kani::proof]
-    #[kani::unwind(15)]
+    #[kani::unwind(11)]
     #[kani::stub(crate::classicalbacktrack::MatchAttempter::try_at_pos, stub_try_at_pos)]
     fn c17_splice_replace_all_with() {
         c17_splice_body(true, false);
     }
 
-    // @verif props=C17 tier=quick sub=eng timeout=3000 unwind=15 bound="replace (first match only), haystack <= 3 symbolic scalars, arbitrary engine table" funcs="Regex::replace,find"
+    // @verif props=C17 tier=quick sub=eng timeout=3000 unwind=11 bound="replace (first match only), haystack <= 2 symbolic scalars, arbitrary engine table" funcs="Regex::replace,find"
     // @verif stubs="MatchAttempter::try_at_pos -> arbitrary deterministic table END[offset]"
     #[kani::proof]
-    #[kani::unwind(15)]
+    #[kani::unwind(11)]
     #[kani::stub(crate::classicalbacktrack::MatchAttempter::try_at_pos, stub_try_at_pos)]
     fn c17_splice_replace() {
         c17_splice_body(false, true);
     }
 
-    // @verif props=C17 tier=thorough sub=eng timeout=3000 unwind=15 bound="replace_with (first match only, constant closure)" funcs="Regex::replace_with,find"
+    // @verif props=C17 tier=thorough sub=eng timeout=3000 unwind=11 bound="replace_with (first match only, constant closure)" funcs="Regex::replace_with,find"
     // @verif stubs="MatchAttempter::try_at_pos -> arbitrary deterministic table END[offset]"
     #[kani::proof]
-    #[kani::unwind(15)]
+    #[kani::unwind(11)]
     #[kani::stub(crate::classicalbacktrack::MatchAttempter::try_at_pos, stub_try_at_pos)]
     fn c17_splice_replace_with() {
         c17_splice_body(false, false);
